@@ -46,6 +46,7 @@ type Contract struct {
 	IsIface    bool
 	Lets       [][2]string // let name = expr (evaluated at entry)
 	Pure       bool
+	SiteProps  []string // properties of field invariants whose store sites this function contains
 	Synth      bool // synthesised: exists only to be checked against an interface contract
 }
 
@@ -67,7 +68,7 @@ func (c *Contract) hasMode(m string) bool {
 var clauseKeywords = map[string]bool{
 	"func": true, "props": true, "mode": true, "requires": true, "ensures": true,
 	"assigns": true, "decreases": true, "loop": true, "let": true, "global": true,
-	"lemma": true, "pure": true,
+	"lemma": true, "pure": true, "fieldinv": true,
 }
 
 var nameRe = regexp.MustCompile(`^([A-Za-z_][A-Za-z0-9_\[\]\.\-]*)(\{[A-Z0-9, ]+\})?:\s*(.*)$`)
@@ -80,10 +81,21 @@ type GlobalFact struct {
 	Line    int
 }
 
+// FieldInv is a data-structure invariant attached to one struct field: it is
+// an obligation at every store to the field (site inventory) and an
+// assumption at every load.
+type FieldInv struct {
+	PkgPath string
+	Type    string
+	Field   string
+	Clause  *Clause
+}
+
 // ContractFile is the result of parsing one verif_contracts.go file.
 type ContractFile struct {
 	Contracts []*Contract
 	Globals   []*GlobalFact
+	FieldInvs []*FieldInv
 }
 
 // parseContractFile reads the //@ blocks of one file.
@@ -141,6 +153,15 @@ func parseContractFile(path, pkgPath string) (*ContractFile, error) {
 			out.Contracts = append(out.Contracts, cur)
 		case "global":
 			out.Globals = append(out.Globals, &GlobalFact{PkgPath: pkgPath, Name: rest, File: base, Line: ln})
+		case "fieldinv":
+			fs := strings.SplitN(rest, " ", 2)
+			tf := strings.SplitN(fs[0], ".", 2)
+			if len(fs) != 2 || len(tf) != 2 {
+				return nil, fmt.Errorf("%s:%d: bad fieldinv", path, ln)
+			}
+			cl := mkClause("fieldinv", fs[1], base, ln, len(out.FieldInvs))
+			out.FieldInvs = append(out.FieldInvs, &FieldInv{PkgPath: pkgPath, Type: tf[0], Field: tf[1], Clause: cl})
+			last = &cl.Expr
 		default:
 			if cur == nil {
 				return nil, fmt.Errorf("%s:%d: clause outside func block", path, ln)
